@@ -23,10 +23,10 @@ TV      `tsig record alter`: messages signed by the real code (every algorithm s
         in each octet string (digest input, MAC, time verdict) -> `tsig judge` fills in crypto/hmac and compares
         the verdicts both ways.
 
-Known finding (known-findings.d/C11.txt):
+Finding of this check on the pinned tree, since repaired in /repo (c2100c2; `fixed:` in known-findings.txt):
   tsig/verify:accepts-invalid:tsig-class-altered
       tsigBuffer digests the constant ClassANY, not the CLASS of the TSIG record as received (RFC 8945 4.3.3): a
-      signed message whose TSIG class is altered (255 -> 254, any of the 16 bits) still verifies.  Seen by TV (bit
+      signed message whose TSIG class was altered (255 -> 254, any of the 16 bits) still verified.  Seen by TV (bit
       and field:class-in events) and CHAINS (alter_class on the first envelope).  The TTL, the other header field
       among the TSIG variables, IS digested from the wire (mutant tsig-ttl-not-digested = seeded change C11-2).
 
@@ -39,6 +39,7 @@ Mutants (checks/mutants/C11, each must give exit 1):
   window-off-by-one             GEN (now = time +/- fudge)
   timers-only-ignored           GEN (timers-only vectors), CHAINS stay green (self-consistent) -- GEN is what bites
   tsig-ttl-not-digested         TV (bit events on the 32 TTL bits, field:ttl-1), CHAINS (alter_ttl on the first envelope)
+  tsig-class-not-digested       (reverts fix c2100c2) TV (16 class bits, field:class-in), CHAINS (alter_class)
 """
 import os, json, threading
 import vp
